@@ -7,6 +7,8 @@ Decided (see DESIGN.md section 3, C01):
          make_middleware_chain, whose result is the only value ever stored in _execute, which is the
          callable execute() injects into; the preprovided set is url | builtins | resources; execute() offers the whole of
          self.resources and passes its call-time parameters on unfiltered (what binding counted as available is there per request);
+         the stack handed to make_middleware_chain is every middleware of the route and of the binding application and nothing
+         else: merge_middlewares loses none and builds a list of its own (the application's list is not the accumulator);
   R01.b  unresolved => NameError (three make_chain results, two 'next' tests); the NameError is what the caller gets:
          building its message cannot itself raise (every % / .format gets the number of values it takes -- a tuple
          operand of run-time length, followed through make_chain's return, is spread over the conversions);
@@ -256,6 +258,7 @@ def run(rep):
     g = rep.guard
     g(check_eager_binding, rep, 'R01.a')
     g(chain.check_execute_offers_provided, rep, 'R01.a')
+    g(chain.check_merge_complete, rep, 'R01.a')
     g(chain.check_unresolved_raises, rep, 'R01.b')
     g(chain.check_chain_argspec, rep, 'R01.c')
     g(chain.check_make_chain, rep, 'R01.c', 'R01.f')
